@@ -13,6 +13,7 @@ The invariant is defined once, in Coq (coq/theories/C05Model.v, `wf`).  This che
      ...) with the records of the objects the implementation produced for the same operations.
 A record failing wf is a concrete failing input; the call descriptor is the replay."""
 import json
+import warnings
 import os
 import subprocess
 import sys
@@ -670,6 +671,48 @@ def run(ctx):
                 seen_sig.add(key)
                 ctx.fail(sig, {'call': d, 'path': p, 'where': where},
                          {'failing_clause': CLAUSE.get(cl, cl), 'record': terms[ti], 'call': sweep.describe(d)})
+    # ---- unpickled copies of LARGE objects and of objects pickled with reduced precision (the sweep's receivers
+    # have at most six elements and default precision; the pickler switches encodings above 200 elements and with
+    # set_pickle_digits - seeded change C05-I left a flat values array on an object with two leading axes)
+    if ok_lib:
+        import pickle
+        from . import c11
+        pterms, pcases = [], []
+        npk = 150 if ctx.tier == 'quick' else 1500
+        for k in range(npk):
+            c = c11.lossy_case(ctx.rng) if k % 3 else c11.gen_object(ctx.rng, shape=ctx.rng.choice(c11.BIG_SHAPES))
+            try:
+                with warnings.catch_warnings():
+                    warnings.simplefilter('ignore')
+                    o2 = pickle.loads(pickle.dumps(c11.build(c, Pm)))
+            except Exception:              # pickling failures are C11's business
+                continue
+            for p2, x in sweep.walk_objects(o2, Pm, _path='unpickled'):
+                if isinstance(x, Pm.Qube):
+                    term = coq_record(record(x, Pm))
+                    small = {kk: c[kk] for kk in ('mode', 'cls', 'shape', 'numer', 'denom', 'dtype', 'digits') if kk in c}
+                    if term is None:
+                        ctx.fail({'part': 'pickled', 'clause': 'malformed', 'cls': c['cls'], 'path': p2.split('.')[0]},
+                                 {'part': 'pickled', 'case': small, 'c11': c}, {'path': p2})
+                    else:
+                        pterms.append(term)
+                        pcases.append((small, p2, c))
+        ctx.evaluations += len(pterms)
+        ctx.count('pickled_objects', len(pterms))
+        uniq = sorted(set(pterms))
+        pflag = eval_flags_named(ctx, uniq, 'pickled') if uniq else {}
+        seenp = set()
+        for ti, clauses in sorted((pflag or {}).items()):
+            for (small, p2, cfull), t in zip(pcases, pterms):
+                if t != uniq[ti]:
+                    continue
+                for cl in clauses:
+                    sig = {'part': 'pickled', 'clause': CLAUSE.get(cl, str(cl)), 'cls': small['cls'],
+                           'mode': small.get('mode'), 'leading_rank': len(small['shape'])}
+                    key = sigkey(sig)
+                    if key not in seenp:
+                        seenp.add(key)
+                        ctx.fail(sig, {'part': 'pickled', 'case': small, 'c11': cfull}, {'path': p2, 'record': t[:600]})
     # ---- model correspondence ----
     if ok_lib:
         correspondence(ctx, Pm)
@@ -788,7 +831,13 @@ def replay(path):
     ctx.dir = os.path.join(lib.BUILD, 'C05', 'replay')
     os.makedirs(ctx.dir, exist_ok=True)
     objs = []
-    if 'call' in c:
+    if c.get('part') == 'pickled':
+        import pickle
+        from . import c11
+        print('pickled   :', c['case'])
+        o2 = pickle.loads(pickle.dumps(c11.build(c['c11'], Pm)))
+        objs = [('unpickled', p2, x) for p2, x in sweep.walk_objects(o2, Pm, _path='unpickled')]
+    elif 'call' in c:
         print('call      :', sweep.describe(c['call']))
         ev = sweep.execute(c['call'], Pm)
         print('outcome   :', 'returned ' + type(ev.result).__name__ if ev.ok else 'raised %s at %s' % ev.exc_family)
